@@ -467,6 +467,40 @@ func runRingCross[E any](w *vhlib.Writer, rng *vhlib.Rng, d *dom[E], ring, produ
 	roundTripSeq(w, rng, d, ring, capn, src, ring.name+"["+d.tname+"]<-"+producer.name, hist)
 }
 
+// A document NOT written by the target's own MarshalJSON, decoded into a fresh container of kind k: an array written by an array list
+// (any order, repeated elements), or null.  Lists, stacks and queues must hold the array's elements in order, sets each element once
+// (linked set: first-occurrence order; tree set: sorted).  Not for the heaps: they adopt the array as it is, a non-heap array included.
+func runForeign[E any](w *vhlib.Writer, rng *vhlib.Rng, d *dom[E], k, arraylistKind seqKind[E], null bool) {
+	capn := 1 + rng.Intn(5)
+	prod := arraylistKind.mk(0)
+	var hist []string
+	from := "arraylist"
+	if null {
+		from = "null"
+		prod = &seqInst[E]{values: func() []E { return nil }, marshal: func() ([]byte, error) { return []byte("null"), nil }}
+	} else {
+		prod.ins(d.univ[rng.Intn(len(d.univ))])
+		var ok bool
+		if hist, ok = buildSeq(rng, d, prod, rng.Intn(10), 8); !ok {
+			return
+		}
+	}
+	src := *prod
+	if k.jrev { // the target writes / reads its array in the reverse of Values()
+		vals := prod.values
+		src.values = func() []E {
+			v := vals()
+			r := make([]E, len(v))
+			for i := range v {
+				r[len(v)-1-i] = v[i]
+			}
+			return r
+		}
+	}
+	hist = append([]string{"document written by " + from}, hist...)
+	roundTripSeq(w, rng, d, k, capn, &src, k.name+"["+d.tname+"]<-"+from, hist)
+}
+
 // marshal src, decode into a fresh container of kind k (capacity capn), run further operations on it
 func roundTripSeq[E any](w *vhlib.Writer, rng *vhlib.Rng, d *dom[E], k seqKind[E], capn int, src *seqInst[E], label string, hist []string) {
 	srcVals := d.list(src.values())
@@ -731,6 +765,24 @@ func seqAll[E any](w *vhlib.Writer, rng *vhlib.Rng, mkDom func() *dom[E], kinds 
 			d := mkDom()
 			runSeq(w, rng, d, kinds(d)[j])
 		}
+		// foreign documents (written by an array list: unsorted, repeated elements; or null) into every other array-like container
+		if i%2 == 0 {
+			ks := kinds(mkDom())
+			for j := range ks {
+				if ks[j].ring || strings.HasPrefix(ks[j].disc(1), "DHeap") || strings.HasPrefix(ks[j].name, "arraylist") {
+					continue
+				}
+				d := mkDom()
+				kk := kinds(d)
+				var al seqKind[E]
+				for _, k := range kk {
+					if k.name == "arraylist" {
+						al = k
+					}
+				}
+				runForeign(w, rng, d, kk[j], al, rng.Intn(8) == 0)
+			}
+		}
 		// ring buffers fed with documents of another length (zero-valued elements included: Dequeue is repaired, 0021)
 		for mode := 0; mode < 3; mode++ {
 			for _, safe := range []bool{false, true} {
@@ -882,7 +934,7 @@ func main() {
 		"heaps, tree sets and tree bidi-maps order them with a user comparator on the content) (strings: "+
 		"also keys), marshalled, validated with json.Valid, parsed, decoded into a fresh container of the same type, re-marshalled, and driven by 3-8 further operations "+
 		"whose results and resulting contents are recorded; ring buffers of capacity 1-5 partially filled, full and wrapped (zero-valued elements included), and ring "+
-		"buffers decoding documents written by a ring of another capacity or by an array list, longer than / as long as / shorter than the target capacity; distinct = distinct case terms; "+
+		"buffers decoding documents written by a ring of another capacity or by an array list, lists / stacks / queues / sets decoding documents written by an array list (unsorted, repeated elements) or null, longer than / as long as / shorter than the target capacity; distinct = distinct case terms; "+
 		"non-trivial = the source container is not empty")
 }
 
